@@ -204,10 +204,20 @@ def run(ctx):
         mid = F(rng.randint(-2, 2))
         UA = rand_kv(rng, p=pa, nintmax=2, interval=(mid - rng.randint(1, 2), mid))
         UB = rand_kv(rng, p=pb, nintmax=2, interval=(mid, mid + rng.randint(1, 3)))
-        label = rng.choice(["continuous", "continuous", "jump", "rational", "mismatch", "refined", "refined", "shared-numerator"])
+        label = rng.choice(["continuous", "continuous", "jump", "rational", "mismatch", "refined", "refined", "shared-numerator", "far-small-step"])
         na, nb = kv_info(UA)[1], kv_info(UB)[1]
         PA, PB = rand_points(rng, na, dim), rand_points(rng, nb, dim)
         WA = WB = None
+        if label == "far-small-step":
+            # a pair far from the origin (coordinates of several thousands) whose junction carries a small but real step or kink
+            # (a tenth of a unit): the junction knot is needed, however large the coordinates are
+            off = F(rng.choice([5000, 8000, 20000, -12000]))
+            small = lambda: tuple(F(rng.randint(-9, 9), 10) for _ in range(dim))     # noqa: E731
+            base = tuple(off + F(rng.randint(-3, 3)) for _ in range(dim))
+            PA = [tuple(b + s_ for b, s_ in zip(base, small())) for _ in range(na)]
+            PB = [tuple(b + s_ for b, s_ in zip(base, small())) for _ in range(nb)]
+            if rng.random() < 0.5:
+                PB[0] = PA[-1]              # continuous: only a kink
         if label == "refined":
             # an operand that carries removable interior knots (it was refined by knot insertion): only the junction knot may lose
             # multiplicity in a join, every other knot of A and B stays
